@@ -6,7 +6,7 @@ usage: run_seeds.py [seed-dir-name ...] [--also C01,C07]"""
 import json, os, shutil, subprocess, sys, tempfile
 from concurrent.futures import ThreadPoolExecutor
 V = "/verif"
-RELATED = {"C08": ["C01", "C07", "C13"], "C04": [], "C01": ["C07", "C08", "C06", "C12", "C13", "C19"], "C03": ["C11"], "C05": ["C06", "C07"], "C07": ["C01", "C16"], "C11": ["C10", "C03"], "C19": ["C01", "C06", "C10", "C12"], "C02": ["C12", "C08", "C09", "C01"], "C06": ["C10", "C13", "C16", "C01", "C14"], "C13": ["C01"], "C12": ["C02", "C01", "C13", "C19"], "C10": ["C06", "C01", "C13"],
+RELATED = {"C08": ["C01", "C07", "C13"], "C04": [], "C01": ["C07", "C08", "C06", "C12", "C13", "C19"], "C03": ["C11"], "C05": ["C06", "C07"], "C07": ["C01", "C16", "C08"], "C11": ["C10", "C03"], "C19": ["C01", "C06", "C10", "C12"], "C02": ["C12", "C08", "C09", "C01"], "C06": ["C10", "C13", "C16", "C01", "C14"], "C13": ["C01"], "C12": ["C02", "C01", "C13", "C19"], "C10": ["C06", "C01", "C13"],
            "C09": ["C02"], "C14": ["C15", "C16"], "C15": ["C14"], "C16": ["C13", "C17"], "C17": ["C16"], "C18": []}
 man = json.load(open(f"{V}/MANIFEST.json"))
 claimed = [c["property_id"] for c in man["checks"]]
